@@ -193,6 +193,7 @@ def run_shard(sh):
   T.castuse_stream(sh, "ys", 6 if sh.tier == "quick" else 50, mech)
   T.feedback_stream(sh, "ys", 4 if sh.tier == "quick" else 40, mech)
   T.consttbl_stream(sh, "ys", 4 if sh.tier == "quick" else 40, mech)
+  T.ifcportlist_stream(sh, "ys", 3 if sh.tier == "quick" else 30, mech)
   T.liststruct_stream(sh, "ys", 3 if sh.tier == "quick" else 30, mech)
   T.constuse_stream(sh, "ys", 4 if sh.tier == "quick" else 40, mech)
   T.localname_stream(sh, "ys", 4 if sh.tier == "quick" else 40, mech)
